@@ -154,6 +154,7 @@ fn build_compare_op(
                     trait __Check {
                         fn __check(&self);
                     }
+                    #[allow(deprecated, non_camel_case_types, non_snake_case, non_upper_case_globals)]
                     #[allow(clippy::double_parens)]
                     #[allow(unused_parens)]
                     impl #impl_g __Check for #this_ty #wheres {
@@ -168,6 +169,7 @@ fn build_compare_op(
     };
 
     Ok(quote! {
+        #[allow(deprecated, non_camel_case_types, non_snake_case, non_upper_case_globals)]
         #[automatically_derived]
         #[allow(clippy::double_parens)]
         #[allow(unused_parens)]
